@@ -45,6 +45,10 @@ def run(ctx):
     b_pass_is_noop(ctx)
     d_waiting_flow_triggered(ctx)
     c_history_only(ctx)
+    g_compound_assignment(ctx)
+    g_consecutive_when(ctx)
+    from . import C04 as _C04
+    _C04.e_literal_text_verbatim(ctx, rule="C14.g.literal-text-verbatim", EVAL=EVAL1)
 
 
 def b_branch_choice(ctx):
@@ -403,6 +407,54 @@ def _inside(node, anc):
             return True
         p = getattr(p, "_parent", None)
     return False
+
+
+CPARSER1 = "nemoguardrails/colang/v1_0/lang/colang_parser.py"
+EVAL1 = "nemoguardrails/colang/v1_0/runtime/eval.py"
+
+
+def g_compound_assignment(ctx):
+    """`variable assignment behaves as in an ordinary structured program`: `$x -= e` means `$x = $x - (e)`.  The Colang 1.0 parser implements `+=` / `-=` by rewriting the line
+    text; the rewrite must carry the WHOLE right hand side in parentheses, otherwise `$budget -= $spent - 1` becomes `$budget - $spent - 1` (F158)."""
+    t = ctx.tree.ast(CPARSER1)
+    fn = find_function(t, "_normalize_line_text")
+    if fn is None:
+        raise AnalysisError("_normalize_line_text not found", anchor=CPARSER1 + "::_normalize_line_text")
+    n = 0
+    for tp in ast.walk(fn):
+        if isinstance(tp, ast.Tuple) and len(tp.elts) == 2 and all(isinstance(e, ast.Constant) and isinstance(e.value, str) for e in tp.elts):
+            pat, repl = tp.elts[0].value, tp.elts[1].value
+            m = re.search(r"\\([+\-])=", pat)
+            if not m:
+                continue
+            n += 1
+            groups = len(re.findall(r"(?<!\\)\((?!\?)", pat))
+            ok = groups >= 2 and re.search(r"\(\\%d\)" % groups, repl) is not None
+            ctx.check("C14.g.compound-assignment", CPARSER1, "_normalize_line_text", "rewrite of `%s=`" % m.group(1), ok,
+                      "the rewrite captures the right hand side and puts it in parentheses (`%s`)" % repl if ok else
+                      "`%s` -> `%s` rewrites only the start of the line: the right hand side follows without parentheses, so `$x %s= a - 1` computes `$x %s a - 1`"
+                      % (pat, repl, m.group(1), m.group(1)), line=tp.lineno)
+    ctx.floor("C14.g.compound-assignment", CPARSER1, "rewrite rules for compound assignments", n, 2)
+
+
+def g_consecutive_when(ctx):
+    """`sequencing`: two `when` statements in a row are two statements.  The parser hands each when-body to the parent branch as a bare list and the element extraction merges
+    ADJACENT lists into one `branch` (that is how `when / else when` is built) - so a plain `when` that follows a when block must be separated from it, or the second wait is
+    skipped and its condition is accepted in place of the first (F159)."""
+    t = ctx.tree.ast(CPARSER1)
+    fn = find_function(t, "_parse_when")
+    if fn is None:
+        raise AnalysisError("_parse_when not found", anchor=CPARSER1 + "::_parse_when")
+    seps = [i for i in ast.walk(fn) if isinstance(i, ast.If) and "main_token" in src(i.test) and re.search(r"['\"]when['\"]", src(i.test)) and "isinstance" in src(i.test)
+            and any(isinstance(c, ast.Call) and isinstance(c.func, ast.Attribute) and c.func.attr == "append" and c.args and not isinstance(c.args[0], (ast.List, ast.Subscript, ast.Name))
+                    for st in i.body for c in ast.walk(st))]
+    app = [c for c in ast.walk(fn) if isinstance(c, ast.Call) and isinstance(c.func, ast.Attribute) and c.func.attr == "append" and c.args and "elements" in src(c.args[0])
+           and "new_branch" in src(c.args[0])]
+    ok = bool(seps) and bool(app) and min(i.lineno for i in seps) < max(c.lineno for c in app)
+    ctx.check("C14.g.consecutive-when", CPARSER1, "_parse_when", "a `when` after a when block starts a new statement", ok,
+              "a separator element is put between a when block and a following plain `when`" if ok else
+              "every when-body is appended to the parent as a bare list and adjacent lists are merged into ONE branch: `when A: ... / when B: ... / bot thank` runs as "
+              "`when A / else when B`, the second wait is skipped", line=fn.lineno)
 
 
 def key_agreement(ctx, rule):
